@@ -3,35 +3,63 @@ package types
 
 import (
 	"bytes"
+	"math/bits"
 
 	"github.com/pokt-network/pocket-core/codec"
 	sdk "github.com/pokt-network/pocket-core/types"
 	v "github.com/pokt-network/pocket-core/verifrt"
 )
 
-//verif:config VerifC38claim real=(*github.com/pokt-network/pocket-core/codec.ProtoCodec).UnmarshalBinaryLengthPrefixed;(*github.com/pokt-network/pocket-core/codec.ProtoCodec).UnmarshalBinaryBare;(*github.com/pokt-network/pocket-core/codec.ProtoCodec).MarshalBinaryLengthPrefixed;(*github.com/pokt-network/pocket-core/codec.ProtoCodec).MarshalBinaryBare maxpaths=60000
-//verif:config VerifC38relayproof real=(*github.com/pokt-network/pocket-core/codec.ProtoCodec).UnmarshalBinaryLengthPrefixed;(*github.com/pokt-network/pocket-core/codec.ProtoCodec).UnmarshalBinaryBare;(*github.com/pokt-network/pocket-core/codec.ProtoCodec).MarshalBinaryLengthPrefixed;(*github.com/pokt-network/pocket-core/codec.ProtoCodec).MarshalBinaryBare maxpaths=60000
+//verif:config VerifC38claim real=(*github.com/pokt-network/pocket-core/codec.ProtoCodec).UnmarshalBinaryLengthPrefixed;(*github.com/pokt-network/pocket-core/codec.ProtoCodec).UnmarshalBinaryBare;(*github.com/pokt-network/pocket-core/codec.ProtoCodec).MarshalBinaryLengthPrefixed;(*github.com/pokt-network/pocket-core/codec.ProtoCodec).MarshalBinaryBare maxpaths=60000 maxsymlen=64
+//verif:config VerifC38relayproof real=(*github.com/pokt-network/pocket-core/codec.ProtoCodec).UnmarshalBinaryLengthPrefixed;(*github.com/pokt-network/pocket-core/codec.ProtoCodec).UnmarshalBinaryBare;(*github.com/pokt-network/pocket-core/codec.ProtoCodec).MarshalBinaryLengthPrefixed;(*github.com/pokt-network/pocket-core/codec.ProtoCodec).MarshalBinaryBare maxpaths=60000 maxsymlen=64
 
-// c38int is an arbitrary int64 of an arbitrary varint width class (the encoder's loop forks once
-// per 7 bits; the class is chosen first so that every width 1..10 bytes is explored).
-func c38int() int64 { return v.I64() }
+// c38sel picks which ONE integer field of the message is fully symbolic (all 64 bits: every
+// varint width 1..10 bytes, negative values included); the other integer fields take a fixed small
+// value. The varint encoder and decoder fork once per 7 bits, so one symbolic integer per run keeps
+// the path count linear; every field gets its turn.
+// c38wide: an arbitrary 64-bit value; the run first fixes its varint width class (1..10 bytes), so
+// that buffer sizes and offsets inside the generated code are determined.
+func c38wide() uint64 {
+	x := v.U64()
+	w := v.Concretize(int64((bits.Len64(x|1)+6)/7), 1, 10)
+	_ = w
+	return x
+}
+
+type c38sel struct{ pick, n int }
+
+func (s *c38sel) i64() int64 {
+	s.n++
+	if s.n-1 == s.pick {
+		return int64(c38wide())
+	}
+	return int64(s.n)
+}
+func (s *c38sel) u64() uint64 {
+	s.n++
+	if s.n-1 == s.pick {
+		return c38wide()
+	}
+	return uint64(s.n)
+}
 
 // VerifC38claim: MsgClaim through the REAL current binary codec (ProtoCodec length-prefixed and
 // bare, generated Marshal/Unmarshal): every field value survives the round trip, for arbitrary
-// integers (all varint widths, negative included), an arbitrary 0..2-byte hash and address.
+// integers (all varint widths, negative included), an arbitrary 0- or 2-byte hash and a 2-byte address.
 func VerifC38claim() {
 	pcdc := &codec.ProtoCodec{}
+	sel := &c38sel{pick: v.Choice(6)}
 	m := MsgClaim{
-		SessionHeader:    SessionHeader{ApplicationPubKey: []string{"", "a1b2"}[v.Choice(2)], Chain: []string{"", "0001"}[v.Choice(2)], SessionBlockHeight: c38int()},
-		MerkleRoot:       HashRange{Hash: v.Bytes(v.Choice(3)), Range: Range{Lower: v.U64(), Upper: v.U64()}},
-		TotalProofs:      c38int(),
-		FromAddress:      sdk.Address(v.Bytes(v.Choice(3))),
-		EvidenceType:     EvidenceType(v.I32()),
-		ExpirationHeight: int64(v.Choice(3)) - 1,
+		SessionHeader:    SessionHeader{ApplicationPubKey: "a1b2", Chain: []string{"", "0001"}[v.Choice(2)], SessionBlockHeight: sel.i64()},
+		MerkleRoot:       HashRange{Hash: v.Bytes(2 * v.Choice(2)), Range: Range{Lower: sel.u64(), Upper: sel.u64()}},
+		TotalProofs:      sel.i64(),
+		FromAddress:      sdk.Address(v.Bytes(2)),
+		EvidenceType:     EvidenceType(int32(sel.i64())),
+		ExpirationHeight: sel.i64(),
 	}
 	var bz []byte
 	var err error
-	lp := v.Choice(2) == 1
+	lp := v.Tier() == 0 || v.Choice(2) == 1 // quick: length-prefixed only (it wraps the bare form)
 	if lp {
 		bz, err = pcdc.MarshalBinaryLengthPrefixed(&m)
 	} else {
@@ -60,8 +88,9 @@ func VerifC38claim() {
 // generated code: arbitrary entropy / session height, strings of 0..2 arbitrary bytes.
 func VerifC38relayproof() {
 	str := func() string { return string(v.Bytes(v.Choice(3))) }
-	m := RelayProof{RequestHash: str(), Entropy: c38int(), SessionBlockHeight: c38int(), ServicerPubKey: "d1", Blockchain: str(),
-		Token: AAT{Version: "0.0.1", ApplicationPublicKey: str(), ClientPublicKey: "c1", ApplicationSignature: ""}, Signature: str()}
+	sel := &c38sel{pick: v.Choice(2)}
+	m := RelayProof{RequestHash: str(), Entropy: sel.i64(), SessionBlockHeight: sel.i64(), ServicerPubKey: "d1", Blockchain: "0001",
+		Token: AAT{Version: "0.0.1", ApplicationPublicKey: str(), ClientPublicKey: "c1", ApplicationSignature: ""}, Signature: "5g"}
 	bz, err := m.Marshal()
 	v.Assert(err == nil, "encodes")
 	var d RelayProof
